@@ -75,6 +75,7 @@ def leftrec(ctx, an, label):
                     _an._edges.append(g.qual)
             return _orig(n, states, branch)
         an.apply_call = hook
+        an.cur_fn = f   # calls through a local function value are resolved against the values the *enclosing* function names
         try:
             an._flow(f.body, [progress.St()], progress.Flow())
         finally:
